@@ -368,6 +368,22 @@ func buildOpPool() []poolOp {
 		}(),
 		decodeOp("Decode(activity without any record)", minimalFile(hdr14(), 4), nil, nil),
 	)
+	// many distinct strings of one length in two files: any cache of decoded strings keyed by a short hash (16 bits
+	// and 1500 x 1500 cross pairs give some 34 expected collisions) hands file B strings of file A
+	manyNames := func(prefix byte) []byte {
+		d := fitmodel.Def{Local: 1, Global: 32, Fields: []fitmodel.FieldDef{{Num: 6, Size: 10, Base: fitmodel.String}, {Num: 254, Size: 2, Base: fitmodel.Uint16}}}
+		recs := append(fitmodel.FileIdRecords(0, 6), d.Bytes())
+		for i := 0; i < 1500; i++ {
+			name := []byte(fmt.Sprintf("%c%08d", prefix, i*7919%100000000))
+			recs = append(recs, fitmodel.Data(1, fitmodel.Concat(append(name, 0), fitmodel.PutUint(binary.LittleEndian, 2, uint64(i)))))
+		}
+		return fitmodel.File(fitmodel.DefaultHeader, recs...)
+	}
+	for _, pf := range []byte{'P', 'Q'} {
+		o := decodeOp(fmt.Sprintf("Decode(course with 1500 course points named %c00000000 ...)", pf), manyNames(pf), nil, nil)
+		o.Long = true
+		pool = append(pool, o)
+	}
 	// the checksum package on its own (lazily built tables and shared scratch state would live there)
 	pool = append(pool,
 		poolOp{Name: "dyncrc16.Checksum(4096 bytes)", Run: func(env opEnv) opResult {
